@@ -1,10 +1,36 @@
 # C07 registry entry (M is injected by lib/props.py)
 PROP = dict(
     title="Throwing and non-throwing variants of every operation agree",
-    rule="tbd",
-    assumptions=[],
-    technique="tbd",
-    level_text="tbd",
-    level_note="tbd",
-    monitors=[M("c07_variants", ["c07_vec.cpp", "c07_matrix.cpp", "c07_frustum.cpp"], san_scale=0.05)],
+    rule=("Every checked/unchecked pair is executed on the same generated input and the pair of outcomes - value bits or dynamic type of the "
+          "exception - is judged: Vec2/3/4<float,double> normalizeExc/normalizedExc vs normalize/normalized/normalizeNonNull/normalizedNonNull "
+          "(11 vector classes: signed zeros, one/all subnormal, |v|^2 around 2*min, underflowing/overflowing squares, max, mixed, benign, lattice, "
+          "any exponent); Vec3(Vec4<T>) vs Vec3(Vec4<T>,INF_EXCEPTION) (w in {+-0, subnormal, <1, 1+-3ulp, >=1} x numerators {max*|w|+-2ulp, benign, "
+          "zero, huge, subnormal, any}); Matrix22/33/44 inverse/invert and Matrix33/44 gjInverse/gjInvert with (true) vs (false) vs () "
+          "(12 matrix classes incl. exactly singular, |det| around 1, power-of-two permutation blocks exactly on / one to two representable values "
+          "beside the guard value |cofactor|/|det| = 1/min, random row/column-scaled blocks within 2^+-3 of it and fine-tuned to within a few eps "
+          "of it, tiny, huge, near-singular; affine and general paths); Frustum projectionMatrix, aspect, localToScreen (through a derived class), "
+          "projectPointToScreen, normalizedZToDepth, ZToDepth, DepthToZ, screenRadius, worldRadius, set(fov) vs their Exc twins (right-left, "
+          "top-bottom, far-near in {0, subnormal, around 2/max, around 2*near/max, tiny, one ulp, around 1, huge, reversed}; p.z, near, depth in "
+          "{0, subnormal, around the guard value +-3 ulp, around 1, benign, huge}; zval at the pole of the depth mapping); 11 Matrix44 and 8 Matrix33 "
+          "decomposition entry points and checkForZeroScaleInRow (Vec3, Vec2) with exc=true vs exc=false (12 matrix classes incl. zero row, zero "
+          "block, axis-aligned parallel rows, 2^k-multiple rows, nearly parallel rows, tiny, huge, mixed dynamic range). The class is idx mod K, so "
+          "every class occurs in every run. Cases are distinct by a hash of all input bits (per-thread table, a lower bound); a case is non-trivial "
+          "when it is not a duplicate - the boundary classes are about 90 % of all cases."),
+    assumptions=["inputs are finite (NaN inputs are excluded: every guard is a comparison, NaN trivially takes one branch)",
+                 "two NaN results count as identical whatever their sign/payload; everything else, including the sign of zero, is compared bit for bit",
+                 "the unchecked form's failure report is: normalisation - the null vector for a null input; matrix inverse - the identity for a matrix that is not (value-)equal to the identity; decomposition - false / the input matrix (documented in ImathMatrixAlgo.h); the unchecked Frustum methods and Vec3(Vec4) have no failure report",
+                 "guard tightness is judged on the exact quotient of the guarded division (from the exact inputs, in __float128); where the library's own operands (cofactors, determinant, three-term sums) carry rounding error the demand is relaxed by the a-priori bound 8 eps sum|terms| + 16 denorm_min and inputs whose bound exceeds 1/2 (1/4 for Frustum) of the value are skipped and counted",
+                 "DepthToZ/DepthToZExc convert a floating value to long: the pair is driven only where that value is provably inside the long range (|value| < 2^60), the Exc form alone where its guard provably fires first; z ranges are limited to |z| < 2^31 (the library stores zmax - zmin in an int)",
+                 "normalizeNonNull/normalizedNonNull are not called on the null vector (documented precondition)",
+                 "gcc on x86-64 (SSE2 arithmetic, no FMA contraction); other compilers' code generation is not observed"],
+    technique=("differential execution of checked vs unchecked entry points on class-directed boundary inputs with exception-type classification "
+               "(typeid of the caught std::exception); __float128 exact-quotient oracle for guard tightness (Leibniz determinants/cofactors, exact "
+               "Gram-Schmidt for the decomposition); ASan/UBSan on a sampled sweep"),
+    level_text=("For each of the ~60 checked/unchecked entry-point pairs, 3*10^5 - 1.5*10^6 (quick) / 10^7 - 6*10^7 (thorough) inputs per element "
+                "type are pushed through both members and the outcomes compared bit for bit; the inputs are concentrated on both sides of every "
+                "guard (exact equality with the guard value and 1-3 representable values beside it are generated deterministically), so an edit to "
+                "one textual copy, a guard that moved, a dropped throw, an ignored exc flag or a wrong exception type shows on the first few cases "
+                "of the affected class. Inputs are sampled, not enumerated: a discrepancy confined to a set of inputs no class reaches would be missed."),
+    level_note="sampled inputs (class-directed); NaN payloads not compared; long-valued DepthToZ only where the conversion is defined; z ranges beyond int not driven",
+    monitors=[M("c07_variants", ["c07_vec.cpp", "c07_matrix.cpp", "c07_frustum.cpp", "c07_decomp.cpp"], san_scale=0.05, san_scale_thorough=0.01)],
 )
